@@ -371,6 +371,17 @@ class Scenario:
             init[name] = {sh: d.get(sh, 0) for sh in self.shnums}
         if sp["op"] != "create":
             g.calllog = []
+            # servers whose grid-manager certificate is no longer valid when the file is written again (they were
+            # permitted when it was created and hold shares): they keep their shares up to date but get no new ones
+            for name in sp.get("denied", []):
+                for wr in writers:
+                    wr.view.servers[name].permitted = False
+            if sp.get("lost_share_on"):
+                for shn, pth in g.shares(self.si).get(sp["lost_share_on"], {}).items():
+                    os.unlink(pth)
+                for name in sorted(g.servers):
+                    d = self.disk(name)
+                    init[name] = {sh: d.get(sh, 0) for sh in self.shnums}
             for wr in writers:
                 wr.opid = 1
                 wr.content = (b"contents of %s " % wr.name.encode()) * (1 + (sp["seed"] + wr.idx) % 4)
@@ -417,7 +428,7 @@ class Scenario:
             e.pop("_op", None)
         consts = {"writers": [wr.name for wr in writers], "servers": sorted(g.servers), "order": order_names,
                   "shnums": self.shnums, "K": sp["k"], "N": sp["n"], "init": init, "op": sp["op"], "fmt": sp["fmt"],
-                  "single": W == 1}
+                  "single": W == 1, "denied": list(sp.get("denied", [])) if sp["op"] != "create" else []}
         g.close()
         shutil.rmtree(self.dir, ignore_errors=True)
         return {"consts": consts, "events": self.events,
@@ -498,6 +509,15 @@ def run_mode(work, mode, n, seed, tier):
             spec = {"kind": "single", "W": 1, "k": k, "n": nn, "servers": ns, "fmt": rng.choice(["SDMF", "MDMF"]),
                     "seed": rng.randrange(10 ** 6), "op": rng.choice(["create", "overwrite"]), "schedule": None,
                     "pfault": rng.choice([0, 0.1, 0.3, 0.5]), "dead": dead}
+            if i % 4 == 2 and nn >= 3:
+                # since the file was created (one share per server) some servers have lost their upload permission, and one of
+                # them has also lost its share: that share needs a new home, and only permitted servers are candidates
+                r3 = random.Random("denied-%d-%d" % (seed, i))
+                names3 = ["s%d" % j for j in range(nn)]
+                lost3 = r3.choice(names3)
+                others = [x for x in names3 if x != lost3]
+                spec.update(op="overwrite", servers=nn, dead=[], pfault=0, lost_share_on=lost3,
+                            denied=sorted([lost3] + r3.sample(others, min(len(others) - 1, r3.choice([1, 2, 2])))))
             traces.append(run_scenario(work, spec))
     else:
         raise SystemExit("unknown mode " + mode)
